@@ -18,6 +18,40 @@ pub struct CorpusCase {
     pub final_newline: bool,
     /// optional malformed line inserted at (sentence index, word index)
     pub malformed: Option<(usize, String)>,
+    /// one word (by running number) whose surface (or feature) is stretched to this many bytes:
+    /// (word number, bytes, multi-byte text, feature instead of surface)
+    #[serde(default)]
+    pub stretch: Option<(usize, u32, bool, bool)>,
+}
+
+impl CorpusCase {
+    /// The sentences with the stretched word in place.
+    pub fn effective(&self) -> Vec<Vec<(String, String)>> {
+        let mut s = self.sentences.clone();
+        if let Some((k, bytes, multibyte, on_feature)) = self.stretch {
+            let n: usize = s.iter().map(|x| x.len()).sum();
+            if n > 0 {
+                let mut k = k % n;
+                for sent in s.iter_mut() {
+                    if k < sent.len() {
+                        let unit = if multibyte { "あ" } else { "x" };
+                        let mut t = unit.repeat(bytes as usize / unit.len());
+                        while t.len() < bytes as usize {
+                            t.push('y');
+                        }
+                        if on_feature {
+                            sent[k].1 = t;
+                        } else {
+                            sent[k].0 = t;
+                        }
+                        break;
+                    }
+                    k -= sent.len();
+                }
+            }
+        }
+        s
+    }
 }
 
 pub struct Format;
@@ -92,8 +126,12 @@ impl Sub for Format {
             vec(vec((any::<u16>(), any::<u16>()), 0..=6), 0..=6),
             any::<bool>(),
             proptest::option::weighted(0.25, (any::<u16>(), any::<u16>())),
+            proptest::option::weighted(
+                0.03,
+                (any::<u16>(), prop_oneof![Just(255u32), Just(256), Just(65_535), Just(65_536), Just(65_537), Just(70_000), Just(131_072)], any::<bool>(), prop::bool::weighted(0.3)),
+            ),
         )
-            .prop_map(|(raw, final_newline, bad)| {
+            .prop_map(|(raw, final_newline, bad, stretch)| {
                 let sentences: Vec<Vec<(String, String)>> = raw
                     .iter()
                     .map(|s| s.iter().map(|&(a, b)| (SURF[pick(a, SURF.len())].to_string(), FEAT[pick(b, FEAT.len())].to_string())).collect())
@@ -103,17 +141,20 @@ impl Sub for Format {
                     sentences,
                     final_newline,
                     malformed,
+                    stretch: stretch.map(|(k, b, m, f)| (usize::from(k), b, m, f)),
                 }
             })
             .boxed()
     }
     fn rule(&self) -> String {
-        "logical corpora of 0-6 sentences × 0-6 (surface, feature) words incl. the surface 'EOS' with a feature, empty features, quoted/comma features, multi-byte text, sentences with no words, with/without final newline; \
+        "logical corpora of 0-6 sentences × 0-6 (surface, feature) words incl. the surface 'EOS' with a feature, empty features, quoted/comma features, multi-byte text, sentences with no words, with/without final newline; in 3% of the cases one surface or feature stretched to 255/256/65535/65536/65537/70000/131072 bytes; \
          optionally one malformed line (two tabs, no tab, 'EOS' with extra columns, near-miss EOS, a line that is not valid UTF-8); oracle: parse(render(C)) = C minus empty sentences; writing every example reproduces the canonical rendering byte for byte; \
          parse(write(parse(x))) = parse(x); malformed ⇒ Err; non-trivial = ≥2 sentences, a dropped empty sentence or a surface equal to EOS; distinct = hash(text)".into()
     }
     fn check(&self, case: &CorpusCase, ctx: &mut Ctx) -> Result<(), String> {
-        let text = render_corpus(&case.sentences, case.final_newline);
+        let sentences = case.effective();
+        let text = render_corpus(&sentences, case.final_newline);
+        let short = |t: &str| -> String { if t.len() > 600 { format!("{}… ({} bytes)", t.chars().take(200).collect::<String>(), t.len()) } else { t.to_string() } };
         ctx.eval();
         if let Some((at, line)) = &case.malformed {
             // insert the malformed line before sentence `at`'s EOS
@@ -135,28 +176,35 @@ impl Sub for Format {
             }
         }
         let parsed = parse(&text)?.map_err(|e| format!("well-formed corpus rejected: {e}; text = {text:?}"))?;
-        let want: Vec<Vec<(String, String)>> = case.sentences.iter().filter(|s| s.iter().any(|w| !w.0.is_empty())).cloned().collect();
+        let want: Vec<Vec<(String, String)>> = sentences.iter().filter(|s| s.iter().any(|w| !w.0.is_empty())).cloned().collect();
         if parsed != want {
+            if text.len() > 600 {
+                let lens = |v: &Vec<Vec<(String, String)>>| v.iter().map(|s| s.iter().map(|w| (w.0.len(), w.1.len())).collect::<Vec<_>>()).collect::<Vec<_>>();
+                return Err(format!("parse(render(C)) differs from C; (surface, feature) byte lengths parsed {:?}, expected {:?}; text = {:?}", lens(&parsed), lens(&want), short(&text)));
+            }
             return Err(format!("parse(render(C)) = {parsed:?}, expected {want:?}; text = {text:?}"));
         }
         let written = write_all(&text)?;
         let canon = render_corpus(&want, true);
         if written != canon {
-            return Err(format!("writing the parsed examples gives {written:?}, canonical rendering is {canon:?}"));
+            return Err(format!("writing the parsed examples gives {:?}, canonical rendering is {:?}", short(&written), short(&canon)));
         }
         let reparsed = parse(&written)?.map_err(|e| format!("written corpus rejected: {e}"))?;
         if reparsed != parsed {
             return Err("parse(write(parse(x))) != parse(x)".into());
         }
-        let dropped = want.len() < case.sentences.len();
-        let eos_surface = case.sentences.iter().flatten().any(|w| w.0 == "EOS");
+        let dropped = want.len() < sentences.len();
+        let eos_surface = sentences.iter().flatten().any(|w| w.0 == "EOS");
+        let longest = sentences.iter().flatten().map(|w| w.0.len().max(w.1.len())).max().unwrap_or(0);
+        ctx.label_if(longest >= 255, "word_of_255_or_more_bytes");
+        ctx.label_if(longest >= 65_536, "word_of_65536_or_more_bytes");
         ctx.label_if(dropped, "empty_sentence_dropped");
         ctx.label_if(eos_surface, "surface_EOS");
         ctx.label_if(!case.final_newline, "no_final_newline");
         if want.len() >= 2 || dropped || eos_surface {
             ctx.nontrivial(&text);
         }
-        ctx.sample(|| serde_json::json!({"text": text, "malformed": case.malformed}));
+        ctx.sample(|| serde_json::json!({"text": short(&text), "malformed": case.malformed, "stretch": case.stretch}));
         Ok(())
     }
 }
@@ -195,6 +243,19 @@ impl Sub for TokenizerOutput {
                 // inputs that produce a token whose surface is literally EOS
                 c.sentences.push("EOS".to_string());
                 c.sentences.push("aEOSa EOS".to_string());
+                // a run of one character longer than 2^16 bytes (one grouped unknown token, or tens of thousands of them)
+                // (only where 66 000 steps of the largest word + connection cost stay inside i32, cf. the domain bound of C01/C02)
+                let conn = crate::refmodel::RefConn::from_spec(&c.spec.conn);
+                let max_conn = conn.cost.iter().flatten().map(|x| x.abs()).max().unwrap_or(0);
+                let max_word = c.spec.lex.iter().map(|r| i64::from(r.cost).abs())
+                    .chain(c.spec.unk.iter().map(|r| i64::from(r.cost).abs()))
+                    .chain(c.user.iter().flatten().map(|r| i64::from(r.cost).abs()))
+                    .max()
+                    .unwrap_or(0);
+                if c.sentences[0].len() % 32 == 3 && (max_conn + max_word) * 66_002 < i64::from(i32::MAX) {
+                    let ch = c.sentences[0].chars().next().unwrap_or('a');
+                    c.sentences.push(std::iter::repeat(ch).take(66_000).collect());
+                }
                 c
             })
             .boxed()
@@ -218,7 +279,7 @@ impl Sub for TokenizerOutput {
                     w.tokenize();
                     tokens_of(&w)
                 })
-                .map_err(|p| format!("tokenize({s:?}): {p}"))?;
+                .map_err(|p| format!("tokenize({:?}…): {p}", s.chars().take(60).collect::<String>()))?;
                 // tokenize/src/main.rs, OutputMode::Mecab
                 for t in &toks {
                     out.push_str(&t.surface);
@@ -232,16 +293,22 @@ impl Sub for TokenizerOutput {
                 }
             }
             ctx.eval();
-            let parsed = parse(&out)?.map_err(|e| format!("tokenizer output rejected as a corpus: {e}; output = {out:?}"))?;
+            let short = |t: &str| -> String { if t.len() > 800 { format!("{}… ({} bytes)", t.chars().take(300).collect::<String>(), t.len()) } else { t.to_string() } };
+            let parsed = parse(&out)?.map_err(|e| format!("tokenizer output rejected as a corpus: {e}; output = {:?}", short(&out)))?;
             if parsed != expect {
+                if out.len() > 800 {
+                    let lens = |v: &Vec<Vec<(String, String)>>| v.iter().map(|s| s.iter().take(5).map(|w| (w.0.len(), w.1.len())).collect::<Vec<_>>()).collect::<Vec<_>>();
+                    return Err(format!("tokenizer output parsed differently from the tokenizer's tokens; (surface, feature) byte lengths of the first words per line: parsed {:?}, tokens {:?}", lens(&parsed), lens(&expect)));
+                }
                 return Err(format!("tokenizer output parsed as {parsed:?}, the tokenizer's tokens were {expect:?}; output = {out:?}"));
             }
+            ctx.label_if(expect.iter().flatten().any(|w| w.0.len() >= 65_536), "token_of_65536_or_more_bytes");
             ctx.label_if(expect.iter().flatten().any(|w| w.0 == "EOS"), "token_surface_EOS");
             ctx.label_if(o.ignore_space, "ignore_space");
             if expect.len() >= 2 {
                 ctx.nontrivial(&out);
             }
-            ctx.sample(|| serde_json::json!({"output": out}));
+            ctx.sample(|| serde_json::json!({"output": short(&out)}));
         }
         Ok(())
     }
